@@ -82,6 +82,8 @@ def run(ctx):
              "pops leaves the operands behind); decided for the loop-free handlers by enumerating "
              "their paths, error exits excluded; Runtime::input is the reviewed state machine")
     rule_h(ctx, cr)
+    from rules import c01 as _c01, common as _common
+    _c01.rule_l(_common.Proxy(ctx, "C18.e"), cr)
     ctx.rule("C18.j", "DATA lines execute as nothing: transform_to_data empties the fragment's code "
              "when it moves the constant to the data segment (see C09.a)")
     from rules import c09
